@@ -1275,7 +1275,10 @@ func (m *Manager) handleMessage(tm *TaskmanMessage) error {
 		// This will check if the task update is from a reconciliation, as well as whether the task
 		// is in a state in which a mesos Kill call is possible.
 		// Reconcilation tasks are not part of the taskman.roster
+		// Tasks of a live environment are in the roster: a reconciliation answer about one of them (e.g. the
+		// implicit reconciliation after a mere reconnection to the master) is an ordinary status update.
 		if mesosStatus.GetReason().String() == "REASON_RECONCILIATION" &&
+			m.GetTask(mesosStatus.GetTaskID().Value) == nil &&
 			(mesosState == mesos.TASK_STAGING ||
 				mesosState == mesos.TASK_STARTING ||
 				mesosState == mesos.TASK_RUNNING ||
